@@ -654,6 +654,13 @@ void QXmppOutgoingClient::handleStream(const QDomElement &streamElement)
         // no version specified, signals XMPP Version < 1.0.
         // switch to old auth mechanism if enabled
         if (d->streamVersion.isEmpty() && configuration().useNonSASLAuthentication()) {
+            // A pre-1.0 stream has no stream features and therefore no STARTTLS: if TLS is
+            // required, authenticating now would send the credentials in clear text.
+            if (configuration().streamSecurityMode() == QXmppConfiguration::TLSRequired && !socket()->isEncrypted()) {
+                warning(u"Server does not support TLS"_s);
+                disconnectFromHost();
+                return;
+            }
             startNonSaslAuth();
         }
     }
